@@ -27,6 +27,8 @@ type Batch struct {
 	Types map[string]map[string]bool
 	// PkgOf: case -> type -> import path
 	PkgOf map[string]map[string]string
+	// NoDriver: only type-check, do not build the reflective driver
+	NoDriver bool
 	// CompileErrors per case (empty = the case type-checks)
 	CompileErrors map[string][]string
 	driver        string
@@ -137,8 +139,10 @@ func (b *Batch) Build() error {
 			return fmt.Errorf("go build failed without attributable diagnostics: %v\n%s", err, out)
 		}
 	}
-	if err := b.buildDriver(); err != nil {
-		return err
+	if !b.NoDriver {
+		if err := b.buildDriver(); err != nil {
+			return err
+		}
 	}
 	b.BuildTime = time.Since(start)
 	return nil
